@@ -216,6 +216,43 @@ Section TrajA.
     (mkA (mkT x1 v2 rho3 a2 (oadd O (ptime b) dt)) (pv b) dR3 dP3, att, coll).
 End TrajA.
 
+(* ---- A-FSSH with rk4 moments ---- *)
+Section TrajAR.
+  Context {T : Type} (O : Ops T).
+  (* A-FSSH with augmented_integration = "rk4" (electronic_integration = "exp"): the wiring of step_af, the moments take
+     four RK4 sub-steps with the propagator matrices themselves - the previous pass's for delR, this pass's for delP - so no
+     eigh answer enters the moment propagation *)
+  Definition step_af_rk4 (n : nat) (m : list T) (dt : T) (poisson : bool) (zeta : T)
+             (eprev e0 e1 : elec (T:=T)) (fm1 : list (list (list T)))
+             (lam : list T) (Cm : mat (T:=T)) (etas : list T) (s : astate (T:=T))
+    : astate (T:=T) * option (nat * bool) * bool :=
+    let b := ab s in
+    let f0 := nth (pact b) (eforce e0) [] in
+    let x1 := advance_position O m (px b) (pv b) f0 dt in
+    let Wprev := Wmid O n (eH eprev) (eH e0) (etau eprev) (etau e0) (pv b) (alastv s) in
+    let dR1 := map (fun p => let '(mx, (R, P)) := p in delR_rk4 O n Wprev dt mx R P) (combine m (combine (adelR s) (adelP s))) in
+    let f1 := nth (pact b) (eforce e1) [] in
+    let v1 := advance_velocity O m (pv b) f0 f1 dt in
+    let W := Wmid O n (eH e0) (eH e1) (etau e0) (etau e1) v1 (pv b) in
+    let dP1 := map (fun p => let '(fx, (fmx, P)) := p in delP_rk4 O n W dt P (delF O n fmx fx) (prho b)) (combine f1 (combine fm1 (adelP s))) in
+    let rho1 := exp_step O n lam Cm dt (prho b) in
+    let g := gkndt O (row O n rho1 (pact b)) (colm O n W (pact b)) (pact b) dt in
+    let '(tg, _) := hopper O poisson g zeta in
+    let '(a2, v2, dR2, dP2, att) :=
+      match tg with
+      | None => (pact b, v1, dR1, dP1, None)
+      | Some t =>
+          let '(a', v', acc) := hop_to_it O m v1 (pact b) t (diagE O n e1) (afssh_direction O dP1 (pact b) t) in
+          if acc then (a', v', map (hop_shift O n t) dR1, map (hop_shift O n t) dP1, Some (t, true))
+          else (a', v', dR1, dP1, Some (t, false))
+      end in
+    let gam := gamma_collapse O n (map (rediag O n) dR2) (map (rediag O n) dP2) (tabulate n (fun i => map (fun fmx => nth i (nth i fmx []) (o0 O)) fm1)) a2 dt in
+    let '(coll, _) := collapse_scan O gam a2 0 etas in
+    let '(rho3, dR3, dP3) := collapse_apply O n a2 coll rho1 dR2 dP2 in
+    (mkA (mkT x1 v2 rho3 a2 (oadd O (ptime b) dt)) (pv b) dR3 dP3, att, coll).
+End TrajAR.
+
+
 (* ---- whole A-FSSH runs ---- *)
 Section RunA.
   Context {T : Type} (O : Ops T).
